@@ -416,7 +416,7 @@ func genTag(t *rapid.T) TagCase {
 	c := TagCase{Behav: genBehav(t, u, []int{bOK, bOK, bOK, b404, b500, b503})}
 	// Hosts that go away in the middle of a request (only a multi-page listing sends a host more than one
 	// request, so only there it matters).
-	if dieBias := rapid.SampledFrom([]int{0, 0, 3, 7}).Draw(t, "dieBias"); dieBias > 0 {
+	if dieBias := rapid.SampledFrom([]int{0, 4, 8}).Draw(t, "dieBias"); dieBias > 0 {
 		c.Die = make([]int, u)
 		for h := range c.Die {
 			if rapid.IntRange(0, 9).Draw(t, "dies") < dieBias {
